@@ -1114,7 +1114,7 @@ func runHistoryProto(c *fw.Case, plan []planEntry, keyType string, code uint64, 
 	c.Sample(map[string]interface{}{"key_type": keyType, "code": code, "outcomes": outcomes, "first_request": trace[0].(map[string]interface{})["request"]})
 }
 
-const invalidPatchVariants = 39
+const invalidPatchVariants = 41
 
 // invalidPatchDelta installs a delta whose second patch breaks one patch-validation constraint (variant 0..25).
 func invalidPatchDelta(h *histCtx, s *opStep, variant int) {
@@ -1237,6 +1237,16 @@ func invalidPatchDelta(h *histCtx, s *opStep, variant int) {
 	case 36:
 		badPatch = fw.Pick(h.r, []map[string]interface{}{{"action": "remove-public-keys", "uris": []interface{}{"key1"}}, {"action": "remove-also-known-as", "ids": []interface{}{"https://a.example"}},
 			{"action": "add-public-keys", "services": []interface{}{edKey()}}, {"action": "replace", "publicKeys": []interface{}{edKey()}}})
+	case 39, 40:
+		// an entry of the patch list that has no members at all ({} or null), next to a valid patch or alone: not a patch
+		var empty interface{} = map[string]interface{}{}
+		if variant == 40 {
+			empty = nil
+		}
+		s.Spec.Patches = fw.Pick(h.r, [][]interface{}{{gen.PAddKeys(gen.RandDocKey(h.r, "ok1")), empty}, {empty, gen.PAddKeys(gen.RandDocKey(h.r, "ok1"))}, {empty}})
+		s.Facts.Patches = s.Spec.Patches
+		s.Facts.DeltaValid = false
+		return
 	case 38:
 		// a required JWK member that is present but not a text
 		bad = edKey()
